@@ -449,3 +449,42 @@ def wellformed(cls_short):
         if d != 0:
             return f"{label}: unbalanced brackets in {s!r}"
     return None
+
+
+def interval():
+    """C18: parse the literal back with the unit designator's field layout"""
+    import itertools
+    import re
+    from . import Interval
+    units = ["years", "months", "days", "hours", "minutes", "seconds", "microseconds"]
+    labels = ["YEAR", "MONTH", "DAY", "HOUR", "MINUTE", "SECOND", "MICROSECOND"]
+    seps = ["-", "-", " ", ":", ":", "."]
+    vals = [0, 3, 10, 205]
+    for combo in itertools.product(vals, repeat=7):
+        for sign in (1, -1):
+            nz = [i for i in range(7) if combo[i]]
+            if not nz:
+                continue
+            kw = {units[i]: combo[i] for i in nz}
+            kw[units[nz[0]]] *= sign
+            for qc in QUERY_CLASSES:
+                try:
+                    sql = Interval(**kw).get_sql(qc.SQL_CONTEXT)
+                except Exception as e:
+                    return f"Interval({kw}) raises {e!r}"
+                m = re.match(r"^INTERVAL '(-?)([0-9 :.\-]*?)(?: ([A-Z_]+)'|' ([A-Z_]+))$", sql)
+                if not m:
+                    return f"Interval({kw}) under {qc.__name__} renders {sql!r}: not an interval literal"
+                neg, expr, unit = m.group(1), m.group(2), m.group(3) or m.group(4)
+                ls = unit.split("_")
+                f, l = labels.index(ls[0]), labels.index(ls[-1])
+                want = "".join(str(combo[i]) + (seps[i] if i < l else "") for i in range(f, l + 1))
+                ok = (f, l) == (nz[0], nz[-1]) and expr == want and (neg == "-") == (sign < 0)
+                if not ok:
+                    return f"Interval({kw}) under {qc.__name__} renders {sql!r}; read with layout {unit} it does not denote the components"
+    for kw in ({"quarters": 2}, {"quarters": -2}, {"weeks": 5}, {"weeks": -5}):
+        sql = str(Interval(**kw))
+        n = list(kw.values())[0]
+        if str(n) not in sql:
+            return f"Interval({kw}) renders {sql!r}"
+    return None
